@@ -452,7 +452,11 @@ def _run_transfer(c, sim):
             cur = dataA if ch.boolean("w", 0.5, "which") else dataB
             fire = [(-1, type(original).__name__, "fit", 0)] if op == "fit-fail" else ()
             sim.env(fire)
-            args = (cur["X"], _target(name, cur)) + ((cur["w"],) if cur["w"] is not None else ())
+            Xfit = cur["X"]
+            if ch.boolean("w", 0.25, "fit-on-frame"):
+                Xfit = U.as_frame(cur["X"])  # the wrapped estimator was trained on a plain array
+                c.probe("transfer_fitted_on_a_frame")
+            args = (Xfit, _target(name, cur)) + ((cur["w"],) if cur["w"] is not None else ())
             snapshot = pickle.loads(pickle.dumps(original))
             ok, r = U.sut(c, op, tt.fit, *args)
             if ok:
